@@ -63,8 +63,11 @@ def _addr(kind, n):
     return A.GearShort(n) if kind == "gear" else A.DeviceShort(n)
 
 
-def _mkunit(ctx, kind, sa, bankno, image, last, hole, has_lock):
-    holes = (lambda loc: bool(E.eq(loc, hole))) if hole is not None else ()
+def _mkunit(ctx, kind, sa, bankno, image, last, hole, has_lock, hole_len=1):
+    if hole is not None and isinstance(hole, int) and hole_len > 1:
+        holes = set(range(hole, hole + hole_len))
+    else:
+        holes = (lambda loc: bool(E.and_(E.ge(loc, hole), E.lt(loc, hole + hole_len)))) if hole is not None else ()
     bank = M.MemoryBank(image, last, holes=holes, has_lock=has_lock)
     u = M.Unit(kind, short=sa, dtr0=ctx.fresh("dtr0", 0, 255), dtr1=ctx.fresh("dtr1", 0, 255),
                dtr2=ctx.fresh("dtr2", 0, 255), banks={bankno: bank})
@@ -171,7 +174,9 @@ def h_read(ctx, vi, kind):
     return "ok"
 
 
-def h_read_all(ctx, bname, vi, kind, lasts, use_latch, near=False):
+def h_read_all(ctx, bname, vi, kind, lasts, use_latch, near=False, gap=1):
+    """gap: width of the hole (run of unimplemented locations inside the bank); a wide gap sits *before* the
+    probe value, whose own locations are implemented: values behind a run of NOs must still be reported."""
     mod, number, declared_last, has_lock, has_latch = MM.BANK_HEADERS[bname]
     bobj = getattr(importlib.import_module(mod), bname)
     values = [v for v in bobj.values]
@@ -198,12 +203,19 @@ def h_read_all(ctx, bname, vi, kind, lasts, use_latch, near=False):
     else:
         hlo, hhi, flo, fhi = 3, 254, 1, 40
     hole = ctx.fresh("hole", hlo, hhi) if hole_mode else None
-    fault_mode = (not hole_mode) and ctx.fresh_bool("with_fault")
+    if gap > 1:
+        if min(plocs) - gap < 3:
+            return "no room for the gap"
+        # (concrete start positions: directly after the header, directly before the probe value, in between;
+        # no fault on top)
+        starts = sorted({3, min(plocs) - gap, (3 + min(plocs) - gap) // 2})
+        hole = starts[ctx.fresh_choice("gap_start", len(starts))] if hole_mode else None
+    fault_mode = (not hole_mode) and gap == 1 and ctx.fresh_bool("with_fault")
     if fault_mode:
         fstep = ctx.fresh("fault_at", flo, fhi)
         fkind = ctx.fresh_choice("fault_kind", 2)
     sa = 4
-    u, bank = _mkunit(ctx, kind, sa, number, image, last, hole, has_lock or has_latch)
+    u, bank = _mkunit(ctx, kind, sa, number, image, last, hole, has_lock or has_latch, hole_len=gap)
     reads = [0]
     faulted = []
 
@@ -253,7 +265,8 @@ def h_read_all(ctx, bname, vi, kind, lasts, use_latch, near=False):
         start = 2 if number == 0 else 3
         silent_loc = start + faulted[0] - 1
     for l in range(0, 256):
-        if l <= last and not (hole is not None and bool(E.eq(l, hole))) and l != silent_loc:
+        if l <= last and not (hole is not None and bool(E.and_(E.ge(l, hole), E.lt(l, hole + gap)))) \
+                and l != silent_loc:
             lst[l] = image[l]
     start = 2 if number == 0 else 3
     for l in range(0, start):
@@ -304,6 +317,16 @@ def cases(tier):
         cs.append(Case("readall-twice-%s" % bname, h_read_all,
                        {"bname": bname, "vi": 0, "kind": "gear", "lasts": lasts, "use_latch": True,
                         "near": tier == "quick"}, width=128, repeat=2))
+        # a run of 9 (thorough also 20) unimplemented locations somewhere before the last declared value
+        smallv = [i for i, v in enumerate(bobj.values) if len(v.locations) <= 4]
+        gvi = smallv[-1] if smallv else nv - 1      # (a small probe value: long strings multiply the paths)
+        cs.append(Case("readall-gap9-%s" % bname, h_read_all,
+                       {"bname": bname, "vi": gvi, "kind": "gear", "lasts": [declared_last], "use_latch": True,
+                        "near": False, "gap": 9}, width=128))
+        if tier != "quick":
+            cs.append(Case("readall-gap20-%s" % bname, h_read_all,
+                           {"bname": bname, "vi": gvi, "kind": "device", "lasts": [declared_last],
+                            "use_latch": False, "near": False, "gap": 20}, width=128))
         for vi in (range(nv) if tier != "quick" else range(0, nv, 5)):
             if len(bobj.values[vi].locations) > 8:
                 continue        # long strings as the symbolic probe multiply the paths (C11's subject)
